@@ -1227,7 +1227,23 @@ func (e *env) main(inClose, closeReturned *bool) {
 			runnerFailed = runnerFailed || strings.HasPrefix(site, "run:")
 		}
 	}
-	if obs.Panic == "" && (!obs.RunErr || runnerFailed) && spec.Close {
+	refreshedOK := false
+	if spec.RetryRefresh && obs.RunErr && obs.Panic == "" && !ctx.OverBudget {
+		// the failure was a passing one: the application tries the refresh once more
+		func() {
+			defer func() {
+				if r := recover(); r != nil {
+					obs.Panic = "retried refresh: " + fmt.Sprint(r)
+				}
+			}()
+			ctx.Log("retry-refresh", "", "")
+			if err := a.Refresh(); err == nil {
+				refreshedOK = true
+				ctx.Log("retry-refresh-ok", "", "")
+			}
+		}()
+	}
+	if obs.Panic == "" && (!obs.RunErr || runnerFailed || refreshedOK) && spec.Close {
 		ctx.Log("close-call", "", "")
 		ctx.TimeMayPass = true // closers may be slow: seconds of simulated time may pass while they are parked
 		*inClose = true
